@@ -314,6 +314,11 @@ def bad_mode_lists(N, k=None):
         out += [("rep_mode", [0, 0]), ("rep_mode", [N - 1, N - 1]), ("neg_mode", [-N])]
     if N >= 2:
         out += [("rep_mode", [0, 1, 0]), ("neg_mode", [0, -1]), ("oob_mode", [1, N]), ("rep_mode", [1, 1])]
+        # the offending entry FIRST (the lists above carry it last)
+        out += [("neg_mode", [-1, 0]), ("oob_mode", [N, 0]), ("rep_mode", [0, 0, 1])]
+    if N >= 3:
+        # ... and in the MIDDLE
+        out += [("neg_mode", [0, -1, 1]), ("oob_mode", [0, N, 1]), ("rep_mode", [2, 0, 0]), ("neg_mode", [0, 1, -2]), ("oob_mode", [2, 0, N + 1])]
     return out
 
 
@@ -375,6 +380,13 @@ def _g_permute(rng, tier):
             out.append(({"s": list(s), "order": [0] + list(range(N - 1))}, "rep_mode"))
             out.append(({"s": list(s), "order": list(range(N - 1)) + [N]}, "oob_mode"))
             out.append(({"s": list(s), "order": [-x - 1 for x in range(N)]}, "neg_mode"))
+            out.append(({"s": list(s), "order": list(range(N - 1)) + [-1]}, "neg_mode"))
+            out.append(({"s": list(s), "order": [N] + list(range(1, N))}, "oob_mode"))
+            out.append(({"s": list(s), "order": list(range(N - 1)) + [0]}, "rep_mode"))
+        if N >= 3:
+            out.append(({"s": list(s), "order": [0, N] + list(range(2, N))}, "oob_mode"))
+            out.append(({"s": list(s), "order": [0, -1] + list(range(2, N))}, "neg_mode"))
+            out.append(({"s": list(s), "order": [0, 0] + list(range(2, N))}, "rep_mode"))
     return out
 
 
@@ -507,8 +519,14 @@ def bad_orders(N):
            ("order_neg", [-1] + r[1:]), ("order_neg", r[:-1] + [-1]), ("order_empty", [])]
     if N >= 2:
         out += [("order_rep", [0] * N), ("order_rep", r[:-1] + [r[0]]), ("order_long_rep", [1, 1, 0] + r[2:]),
-                ("order_shift", list(range(1, N + 1)))]
+                ("order_shift", list(range(1, N + 1))), ("order_oob", [N] + r[1:]), ("order_rep", [r[1]] + r[1:])]
+    if N >= 3:
+        out += [("order_oob", [0, N] + r[2:]), ("order_neg", [0, -1] + r[2:]), ("order_rep", [0, 0] + r[2:])]
     return out
+
+
+def _pos(k, n):
+    return "only" if n == 1 else "first" if k == 0 else "last" if k == n - 1 else "mid"
 
 
 def mode_sel_cases(s, rng, tier, mult_for, bad_mult_for, allow_empty=False):
@@ -530,10 +548,22 @@ def mode_sel_cases(s, rng, tier, mult_for, bad_mult_for, allow_empty=False):
             out.append((d, None, good[:-1], "count_short" if len(d) - 1 != N else "control"))
         if len(d) + 1 != N:
             out.append((d, None, good + [mult_for(d[-1])], "count_long"))
-        # size violations: exactly one multiplicand wrong
+        # size violations: exactly one multiplicand wrong — in EVERY position of the list that is handed over (first / middle /
+        # last / only; the tag carries the position so that every position survives the per-tag sampling for every operand
+        # kind), under every calling convention: one multiplicand per listed mode, one per mode of the tensor (dims or
+        # exclude_dims given), one per remaining mode with exclude_dims
+        sd = sorted(d)
+        ex = [m for m in range(N) if m not in d]
         for k in range(len(d)):
             for bad in bad_mult_for(d[k]):
-                out.append((d, None, good[:k] + [bad] + good[k + 1:], "mult_size"))
+                out.append((d, None, good[:k] + [bad] + good[k + 1:], "mult_size_" + _pos(k, len(d))))
+                if len(d) != N:
+                    fb = full[:d[k]] + [bad] + full[d[k] + 1:]
+                    out.append((d, None, fb, "mult_size_" + _pos(d[k], N)))
+                    out.append((None, ex, fb, "mult_size_" + _pos(d[k], N)))
+                    j = sd.index(d[k])
+                    gs = [mult_for(m) for m in sd]
+                    out.append((None, ex, gs[:j] + [bad] + gs[j + 1:], "mult_size_" + _pos(j, len(sd))))
         if len(d) >= 2 and s[d[0]] != s[d[1]]:
             sw = good[:]
             sw[0], sw[1] = sw[1], sw[0]
@@ -706,9 +736,12 @@ def _g_mttkrp(rng, tier, minN=2):
             for k in range(N):
                 if k == n:
                     continue
-                out.append(({"s": list(s), "us": good[:k] + [[s[k] + 1, R]] + good[k + 1:], "n": n}, "rows"))
-                out.append(({"s": list(s), "us": good[:k] + [[s[k], R + 1]] + good[k + 1:], "n": n}, "cols"))
-                out.append(({"s": list(s), "us": good[:k] + [[s[k], 1]] + good[k + 1:], "n": n}, "cols_one"))
+                # the tag carries the POSITION of the offending matrix in the list (first / middle / last), so that every position
+                # survives the per-tag sampling for every operand kind
+                out.append(({"s": list(s), "us": good[:k] + [[s[k] + 1, R]] + good[k + 1:], "n": n}, "rows_" + _pos(k, N)))
+                # 2-way: U[k] is the only matrix that is looked at, any column count is well-formed
+                out.append(({"s": list(s), "us": good[:k] + [[s[k], R + 1]] + good[k + 1:], "n": n}, "cols_" + _pos(k, N) if N > 2 else "control"))
+                out.append(({"s": list(s), "us": good[:k] + [[s[k], 1]] + good[k + 1:], "n": n}, "cols_one" if N > 2 else "control"))
                 if s[k] != R:
                     out.append(({"s": list(s), "us": good[:k] + [[R, s[k]]] + good[k + 1:], "n": n}, "swapped"))
         if N >= 2:
@@ -777,9 +810,10 @@ def _g_scale(rng, tier):
             fc = [s[m] for m in d]
             if fc != f:                            # the sizes in the caller's order of an unsorted list
                 out.append(({"s": list(s), "f": fc, "d": d}, "caller_order"))
-            out.append(({"s": list(s), "f": f[:-1] + [f[-1] + 1], "d": d}, "size"))
-            if f[-1] != 1:
-                out.append(({"s": list(s), "f": f[:-1] + [1], "d": d}, "size_one"))
+            for k in range(len(f)):                 # one size of the factor off, in every position
+                out.append(({"s": list(s), "f": f[:k] + [f[k] + 1] + f[k + 1:], "d": d}, "size"))
+                if f[k] != 1:
+                    out.append(({"s": list(s), "f": f[:k] + [1] + f[k + 1:], "d": d}, "size_one"))
             if f != f[::-1]:
                 out.append(({"s": list(s), "f": f[::-1], "d": d}, "swapped"))
             out.append(({"s": list(s), "f": f + [1], "d": d}, "extra_mode"))
@@ -977,6 +1011,9 @@ def _g_k_ctor(rng, tier):
             out.append(({"ms": good[:k] + [[s[k], 1]] + good[k + 1:], "w": R}, "cols_one"))
         if len(s) > 1:
             out.append(({"ms": [[s[0], R + 1]] + good[1:], "w": R}, "cols"))
+            out.append(({"ms": [[s[0], R + 1]] + good[1:], "w": None}, "cols"))
+            out.append(({"ms": [[s[0], 1]] + good[1:], "w": None}, "cols_one"))
+            out.append(({"ms": [[s[0], 1]] + good[1:], "w": 1}, "cols_one"))
     return out
 
 
@@ -1248,6 +1285,8 @@ def _g_shapes_list(rng, tier):
         for tag, v in shape_variants(s):
             out.append(({"shapes": [list(s), v]}, tag))
             out.append(({"shapes": [list(s), list(s), v]}, tag))
+            out.append(({"shapes": [list(s), v, list(s)]}, tag))
+            out.append(({"shapes": [v, list(s), list(s)]}, tag))
     return out
 
 
@@ -1649,6 +1688,222 @@ with_kinds(["tenmat.add", "tenmat.sub", "tenmat.radd", "tenmat.rsub"], [("C", No
 with_kinds(["cp_als", "cp_apr", "hosvd", "tucker_als", "gcp_opt", "cp_als.optdims"], [("C", None)])
 
 
+# ---------------------------------------------------------------- wave 4: more members of the same-shape family
+# Operations whose only dimensional precondition is "both operands have the same shape" and that were not in the stream yet:
+# the remaining sparse/sparse and sparse/dense element-wise operations and comparisons, dense operations with a sparse operand,
+# ktensor subtraction, inner products across classes, sumtensor + Kruskal / sparse.  Guard = guard_same_shape (theorem
+# C19_same_shape).  A lighter shape pool in the quick tier (the full pool in the thorough tier); every variant of
+# shape_variants (drop / extra mode, one size off, size 1 = broadcastable, swapped) on each.
+LITE = [(2, 3, 4), (3, 1, 2), (1, 4), (4,), (2, 2)]
+
+
+def _g_two_shapes_lite(rng, tier):
+    out = []
+    for s in (LITE if tier != "thorough" else pool(tier)):
+        out.append(({"s": list(s), "u": list(s)}, "control"))
+        for tag, v in shape_variants(s):
+            out.append(({"s": list(s), "u": v}, tag))
+    return out
+
+
+def two_shapes_lite(name, mk1, mk2, f):
+    reg(name, "same_shape", lambda a: f"{zl(a['s'])} {zl(a['u'])}", lambda a: a["s"] == a["u"],
+        lambda a: (lambda x, y: ([x, y], lambda: f(x, y)))(mk1(a["s"]), mk2(a["u"])), _g_two_shapes_lite)
+
+
+W4_SAME_SHAPE = {
+    # sparse / sparse
+    "sptensor.logical_xor": (S, S, lambda x, y: x.logical_xor(y)), "sptensor.ne": (S, S, lambda x, y: x != y),
+    "sptensor.truediv": (S, S, lambda x, y: x / y), "sptensor.lt": (S, S, lambda x, y: x < y), "sptensor.ge": (S, S, lambda x, y: x >= y),
+    # sparse / dense
+    "sptensor.add_dense": (S, T, lambda x, y: x + y), "sptensor.sub_dense": (S, T, lambda x, y: x - y),
+    "sptensor.eq_dense": (S, T, lambda x, y: x == y), "sptensor.ne_dense": (S, T, lambda x, y: x != y),
+    "sptensor.lt_dense": (S, T, lambda x, y: x < y), "sptensor.ge_dense": (S, T, lambda x, y: x >= y),
+    "sptensor.logical_and_dense": (S, T, lambda x, y: x.logical_and(y)), "sptensor.logical_or_dense": (S, T, lambda x, y: x.logical_or(y)),
+    "sptensor.logical_xor_dense": (S, T, lambda x, y: x.logical_xor(y)), "sptensor.truediv_dense": (S, T, lambda x, y: x / y),
+    # dense with a sparse operand, further dense operations
+    "tensor.add_sparse": (T, S, lambda x, y: x + y), "tensor.eq_sparse": (T, S, lambda x, y: x == y),
+    "tensor.logical_xor": (T, T, lambda x, y: x.logical_xor(y)), "tensor.ne": (T, T, lambda x, y: x != y),
+    "tensor.truediv": (T, T, lambda x, y: x / y),
+    # Kruskal
+    "ktensor.sub": (K, K, lambda x, y: x - y),
+    # inner products across classes
+    "ttensor.innerprod_ktensor": (TTs, K, lambda x, y: x.innerprod(y)), "ttensor.innerprod_sparse": (TTs, S, lambda x, y: x.innerprod(y)),
+    "ktensor.innerprod_sparse": (K, S, lambda x, y: x.innerprod(y)), "ktensor.innerprod_ttensor": (K, TTs, lambda x, y: x.innerprod(y)),
+    "tensor.innerprod_sparse": (T, S, lambda x, y: x.innerprod(y)), "tensor.innerprod_ktensor": (T, K, lambda x, y: x.innerprod(y)),
+    "tensor.innerprod_ttensor": (T, TTs, lambda x, y: x.innerprod(y)),
+    "sumtensor.innerprod_ktensor": (SU, K, lambda x, y: x.innerprod(y)), "sumtensor.innerprod_sparse": (SU, S, lambda x, y: x.innerprod(y)),
+    # sums
+    "sumtensor.add_ktensor": (SU, K, lambda x, y: x + y), "sumtensor.add_sparse": (SU, S, lambda x, y: x + y),
+}
+for _n, (_m1, _m2, _f) in W4_SAME_SHAPE.items():
+    two_shapes_lite(_n, _m1, _m2, _f)
+
+
+# sptensor.contract / sptensor.nvecs: the requests of the dense methods on a sparse receiver (guards = the code as repaired by
+# fixes/C19-N22.diff / C19-N23.diff)
+reg("sptensor.contract", ("tensor_contract", "sptensor_contract"),
+    lambda a: f"{zl(a['s'])} {gz(a['i1'])} {gz(a['i2'])}",
+    lambda a: in_range(len(a["s"]), a["i1"]) and in_range(len(a["s"]), a["i2"]) and a["i1"] != a["i2"]
+    and a["s"][a["i1"]] == a["s"][a["i2"]],
+    lambda a: (lambda t: ([t], lambda: t.contract(a["i1"], a["i2"])))(S(a["s"])),
+    _g_contract)
+# all-singleton shapes are refused by sptensor.nvecs whatever the mode ("only singleton dimensions": a documented limitation)
+reg("sptensor.nvecs", ("mode", "sptensor_nvecs"), lambda a: f"{zl(a['s'])} {gz(a['n'])}", lambda a: in_range(len(a["s"]), a["n"]),
+    lambda a: (lambda x: ([x], lambda: x.nvecs(a["n"], 1)))(S(a["s"])),
+    lambda rng, tier: [(a, t) for a, t in _g_mode(rng, tier) if len(a["s"]) >= 2 and any(d > 1 for d in a["s"])])
+with_kinds(["sptensor.contract", "sptensor.nvecs"], _SP1)
+
+
+# sptensor.scale(factor, dims) with a dense / sparse factor: the descriptor says whether the receiver stores an entry (a receiver
+# without entries answers before the factor's shape is compared: C19-N24)
+def _g_sp_scale(rng, tier):
+    return [(dict(a, empty=e), t) for a, t in _g_scale(rng, tier) for e in (False, True)]
+
+
+for _n, _mk in (("sptensor.scale_dense", T), ("sptensor.scale_sparse", S)):
+    reg(_n, "sptensor_scale", lambda a: f"{zl(a['s'])} {gbool(a['empty'])} {zl(a['f'])} {zl(a['d'])}",
+        lambda a: modes_ok(len(a["s"]), a["d"]) and a["f"] == [a["s"][m] for m in sorted(a["d"])],
+        lambda a, _mk=_mk: (lambda x, f: ([x, f], lambda: x.scale(f, _np().array(a["d"], dtype=int))))(S(a["s"], a["empty"]), _mk(a["f"])),
+        _g_sp_scale)
+with_kinds(["sptensor.scale_dense", "sptensor.scale_sparse"], _SP1)
+
+
+# ktensor.update(modes, data): in place.  Descriptor: shape, R = 2 components, the mode list, the length of the data vector.
+def _upd_need(s, R, k):
+    return R if k == -1 else s[k] * R
+
+
+def _pre_k_update(a):
+    s, R, ms, N = a["s"], a["R"], a["modes"], len(a["s"])
+    if any(x >= y for x, y in zip(ms, ms[1:])) or any(not (k == -1 or 0 <= k < N) for k in ms):
+        return False
+    return sum(_upd_need(s, R, k) for k in ms) <= a["dlen"]
+
+
+def _g_k_update(rng, tier):
+    out = []
+    R = 2
+    for s in pool(tier, 1, 3):
+        s, N = list(s), len(s)
+
+        def case(ms, tag, delta=0, drop=None):
+            need = [_upd_need(s, R, k) if (k == -1 or -N <= k < N) else 0 for k in ms]
+            n = sum(need) + delta if drop is None else sum(need[:drop]) + max(0, need[drop] - 1)
+            out.append(({"s": s, "R": R, "modes": ms, "dlen": max(0, n)}, tag))
+        allm = list(range(N))
+        for k in allm:
+            case([k], "control")
+            case([k], "data_short_first", delta=-1)
+        case([-1], "control")
+        case([-1], "data_short_first", delta=-1)
+        case(allm, "control")
+        case([-1] + allm, "control")
+        case([N], "oob_mode_first")
+        case([N + 1], "oob_mode_first")
+        case([-N - 1], "neg_mode_first")
+        case([-2] if N >= 2 else [-3], "neg_mode" if N >= 2 else "neg_mode_first")      # below -1: wraps around when >= -N
+        case([0, 0], "rep_mode")
+        case([-1, -1], "rep_mode")
+        case([0, N], "oob_mode_later")
+        case([-1, N], "oob_mode_later")
+        case([-1, 0], "data_short_later", drop=1)
+        if N >= 2:
+            case([0, N - 1], "control")
+            case([N - 1, 0], "unsorted")
+            case([0, N - 1], "data_short_later", drop=1)
+            case(allm, "data_short_later", drop=N - 1)
+            case([-1] + allm, "data_short_later", drop=N)
+            case([-2, 0], "neg_mode")
+            case([-1, 0, 0], "rep_mode")
+            case(allm + [N], "oob_mode_later")
+            case([0, N - 1, N - 1], "rep_mode")
+        if N >= 3:
+            case([0, 2, 1], "unsorted")
+            case(allm, "data_short_later", drop=1)
+    return out
+
+
+reg("ktensor.update", "ktensor_update", lambda a: f"{zl(a['s'])} {gz(a['R'])} {zl(a['modes'])} {gz(a['dlen'])}", _pre_k_update,
+    lambda a: (lambda k, d: ([k], lambda: _quiet_warn(lambda: k.update(list(a["modes"]), d))))(K(a["s"], a["R"]), 100.5 + _np().arange(float(a["dlen"]))),      # values that occur nowhere in the receiver
+    _g_k_update, mutating=True)
+with_kinds(["ktensor.update"], [(k, None) for k in KRUSKAL_KINDS])
+
+
+def _quiet_warn(f):
+    import warnings
+    with warnings.catch_warnings():
+        warnings.simplefilter("ignore")
+        return f()
+
+
+# X.mask(W): the mask has the order of the receiver and no mode of it is longer ("Mask cannot be bigger than the data tensor")
+def _pre_mask(a):
+    return len(a["u"]) == len(a["s"]) and all(x <= y for x, y in zip(a["u"], a["s"]))
+
+
+def _g_mask(rng, tier):
+    out = []
+    for s in pool(tier, 1, 3):
+        s = list(s)
+        out.append(({"s": s, "u": s}, "control"))
+        for k in range(len(s)):                    # a smaller mask is well-formed
+            if s[k] > 1:
+                out.append(({"s": s, "u": s[:k] + [s[k] - 1] + s[k + 1:]}, "control"))
+        for tag, v in shape_variants(s):
+            a = {"s": s, "u": v}
+            out.append((a, "control" if _pre_mask(a) else tag))
+        if len(s) >= 2:                            # masks of another order whose sizes fit every mode (broadcastable comparisons)
+            out.append(({"s": s, "u": [min(s)]}, "order_one"))
+            out.append(({"s": s, "u": [1]}, "order_one"))
+            out.append(({"s": s, "u": [s[0]]}, "order_one"))
+            out.append(({"s": s, "u": [1] + s}, "extra_mode"))
+        else:
+            out.append(({"s": s, "u": [1, 1]}, "extra_mode"))
+            out.append(({"s": s, "u": [s[0], 1]}, "extra_mode"))
+    return out
+
+
+for _n, _m1, _m2 in (("tensor.mask", T, T), ("sptensor.mask", S, S), ("ktensor.mask", K, T), ("ktensor.mask_sparse", K, S)):
+    reg(_n, "mask", lambda a: f"{zl(a['s'])} {zl(a['u'])}", _pre_mask,
+        lambda a, _m1=_m1, _m2=_m2: (lambda x, w: ([x, w], lambda: x.mask(w)))(_m1(a["s"]), _m2(a["u"])), _g_mask)
+with_kinds(["tensor.mask"], [("C", None), (None, "C"), (None, "zero")])
+with_kinds(["sptensor.mask"], [("empty", None), (None, "empty"), ("one", None), (None, "one")])
+with_kinds(["ktensor.mask"], [("C", None), (None, "zero")])
+with_kinds(["ktensor.mask_sparse"], [("norm", None), (None, "empty")])
+
+
+# sptensor.innerprod(other) with a Kruskal / Tucker operand: like innerprod_sp the descriptor says whether the receiver stores an entry
+# (an all-zero receiver answers 0 before the operand is looked at: C19-N21)
+def _g_sp_innerprod_lite(rng, tier):
+    return [(dict(a, empty=e), t) for a, t in _g_two_shapes_lite(rng, tier) for e in (False, True)]
+
+
+reg("sptensor.innerprod_ktensor", ("sptensor_innerprod", "sptensor_innerprod_kt"),
+    lambda a: f"{zl(a['s'])} {gbool(a['empty'])} {zl(a['u'])}", lambda a: a["s"] == a["u"],
+    lambda a: (lambda x, y: ([x, y], lambda: x.innerprod(y)))(S(a["s"], a["empty"]), K(a["u"])), _g_sp_innerprod_lite)
+reg("sptensor.innerprod_ttensor", ("sptensor_innerprod", "sptensor_innerprod_kt"),
+    lambda a: f"{zl(a['s'])} {gbool(a['empty'])} {zl(a['u'])}", lambda a: a["s"] == a["u"],
+    lambda a: (lambda x, y: ([x, y], lambda: x.innerprod(y)))(S(a["s"], a["empty"]), TTs(a["u"])), _g_sp_innerprod_lite)
+with_kinds(["sptensor.innerprod_ktensor", "sptensor.innerprod_ttensor"], _SP1 + [(None, "C")])
+# operand kinds: a sparse operand without entries (constructed empty / X - X) on either side, a C-ordered dense operand
+for _n, (_m1, _m2, _f) in W4_SAME_SHAPE.items():
+    _c = []
+    if _m1 is S:
+        _c += [("empty", None), ("cancel", None), ("one", None)]
+    if _m2 is S:
+        _c += [(None, "empty"), (None, "cancel")]
+    if _m1 is T:
+        _c += [("C", None)]
+    if _m2 is T:
+        _c += [(None, "C"), (None, "zero")]
+    if _m1 is K:
+        _c += [("C", None)]
+    if _m2 is K:
+        _c += [(None, "norm")]
+    with_kinds([_n], _c)
+
+
 # ================================================================================================
 # known findings: trigger predicates (as narrow as the defect) and witnesses
 # ================================================================================================
@@ -1658,14 +1913,16 @@ FINDINGS = []      # source of findings.d/C19.jsonl (written by `python3 tools/p
 FIXED = {"C19-N02": "b4434a4", "C19-N03": "d384651", "A-42": "f9fb7ec", "A-44": "3c0ad44", "A-45": "ce8a533",
          "C19-N04": "d862071", "C19-N05": "2c19f39", "C19-N06": "f9fb7ec", "C19-N07": "5b41ba6", "C19-N08": "aca2504",
          "C19-N10": "d3df9c1", "C19-N12": "922ff4e", "C19-N13": "7d1fad0", "C19-N14": "f8cdd2b", "C19-N15": "03352d0",
-         "C19-N01": "072fe0a", "C19-N09": "4943733", "C19-N16": "2c0f010", "C19-N17": "929a206", "C19-N19": "3b2d1cd"}
+         "C19-N01": "072fe0a", "C19-N09": "4943733", "C19-N16": "2c0f010", "C19-N17": "929a206", "C19-N19": "3b2d1cd",
+         "C19-N20": "dc71f18"}
 
 
-def finding(fid, trigger, pred, op, witness, what, call_site, proposed="fix"):
+def finding(fid, trigger, pred, op, witness, what, call_site, proposed="fix", observed="a value is returned",
+            expected="an exception (request rejected)"):
     if fid in FIXED:
         FINDINGS.append({"property": "C19", "finding_id": fid, "status": "fixed", "op": None, "trigger": trigger,
                          "call_site": call_site, "what": what, "witness": {"op": op, "args": witness},
-                         "expected": "an exception (request rejected)", "observed": "a value is returned",
+                         "expected": expected, "observed": observed,
                          "proposed": proposed, "fixed_commit": FIXED[fid]})
         return
     TRIGGERS[trigger] = lambda c, _p=pred: bool(_p(c.op, c.args))
@@ -1674,11 +1931,13 @@ def finding(fid, trigger, pred, op, witness, what, call_site, proposed="fix"):
         o = run(_op, _w)
         if "harness" in o:
             return "witness could not be built: " + o["harness"]
-        return None if o["rejected"] else f"{_op}{_w} is answered, not rejected"
+        if not o["rejected"]:
+            return f"{_op}{_w} is answered, not rejected"
+        return None if o["recv_same"] else f"{_op}{_w} is rejected, but its receiver has changed"
     WITNESSES[fid] = wit
     FINDINGS.append({"property": "C19", "finding_id": fid, "status": "open", "op": None, "trigger": trigger,
                      "call_site": call_site, "what": what, "witness": {"op": op, "args": witness},
-                     "expected": "an exception (request rejected)", "observed": "a value is returned", "proposed": proposed})
+                     "expected": expected, "observed": observed, "proposed": proposed})
 
 
 def _wrapped_distinct(N, l):
@@ -1741,7 +2000,7 @@ PROVED = {"tensor.ctor", "tensor.reshape", "tensor.innerprod", "tensor.permute",
           "tensor.getitem_linear", "tensor.setitem_linear", "tensor.scale", "ktensor.mttkrp", "sumtensor.mttkrp", "sptensor.ttm", "ttensor.ttm", "sptensor.mttkrp", "sptensor.extract", "sptensor.from_aggregator", "gcp_opt",
           "tensor.ttv", "tensor.ttm", "tensor.mttkrp", "tensor.collapse", "sptensor.ctor", "ktensor.redistribute",
           "cp_als", "hosvd", "cp_apr", "tucker_als", "sptensor.ttv", "ktensor.ttv", "ttensor.ttv", "sumtensor.ttv",
-          "sptensor.collapse", "ttensor.mttkrp", "ktensor.normalize_mode"}
+          "sptensor.collapse", "ttensor.mttkrp", "ktensor.normalize_mode", "sptensor.innerprod_ktensor", "sptensor.innerprod_ttensor", "sptensor.contract", "sptensor.nvecs", "sptensor.scale_dense", "sptensor.scale_sparse", "ktensor.update", "tensor.mask", "sptensor.mask", "ktensor.mask", "ktensor.mask_sparse"} | set(W4_SAME_SHAPE)      # guard_same_shape: C19_same_shape
 
 
 def tagfinding(fid, ops, tags, witness_op, witness, what, call_site, extra=lambda a: True, proposed="fix"):
@@ -1790,8 +2049,13 @@ tagfinding("C19-N10", ["ttensor.mttkrp"], ["list_short", "list_long"], "ttensor.
            {"s": [2, 2, 2], "us": [[2, 2], [2, 2], [2, 2], [2, 2]], "n": 2},
            "ttensor.mttkrp does not check the length of U (extra matrices ignored; a short list answers when n is the "
            "missing position)", "ttensor.mttkrp")
-tagfinding("C19-N11", ["tenmat.ctor"], ["swapped", "regrouped"], "tenmat.ctor",
-           {"ts": [2, 3, 4], "rd": [2], "cd": [0, 1], "d": [6, 4]},
+# trigger = a predicate on the REQUEST, exactly the class that is answered although ill-formed: the mode lists are a partition,
+# the element count is right, the matrix shape is not (rows x cols) = (prod tshape[rdims], prod tshape[cdims])
+finding("C19-N11", "c19_n11_regrouped_swapped",
+        lambda op, a: op == "tenmat.ctor" and is_perm(len(a["ts"]), a["rd"] + a["cd"])
+        and a["d"][0] * a["d"][1] == math.prod(a["ts"])
+        and (a["d"][0] != math.prod(a["ts"][m] for m in a["rd"]) or a["d"][1] != math.prod(a["ts"][m] for m in a["cd"])),
+        "tenmat.ctor", {"ts": [2, 3, 4], "rd": [2], "cd": [0, 1], "d": [6, 4]},
            "tenmat.__init__ compares only the element count with prod(tshape[rdims])*prod(tshape[cdims]); a data matrix "
            "with the wrong number of rows and columns (e.g. transposed) is accepted", "tenmat.__init__", proposed="known")
 
@@ -1824,7 +2088,10 @@ finding("C19-N19", "c19_n19_gcp_list_init",
         "it with the requested rank or the shape of the data (a Kruskal-tensor guess is compared): another number of components "
         "is answered, a wrong size is answered whenever numpy can broadcast it against the data (singleton modes)",
         "gcp_opt._get_initial_guess")
-tagfinding("C19-N18", ["sptensor.from_aggregator"], ["vals_no_subs"], "sptensor.from_aggregator", {"s": [2, 3], "subs": [], "nvals": 2},
+# trigger = a predicate on the REQUEST: a subscript array without rows, at least one value, a valid shape
+finding("C19-N18", "c19_n18_vals_no_subs",
+        lambda op, a: op == "sptensor.from_aggregator" and len(a["subs"]) == 0 and a["nvals"] > 0 and all(d > 0 for d in a["s"]),
+        "sptensor.from_aggregator", {"s": [2, 3], "subs": [], "nvals": 2},
            "sptensor.from_aggregator compares the number of values with the number of subscripts only when subs.size > 1: "
            "values handed over with a subscript array without rows are silently dropped (upstream tests "
            "test_sptensor_initialization_from_aggregator and test_sptensor_ttv call it that way, so no repair is proposed)",
@@ -1836,6 +2103,67 @@ tagfinding("C19-N17", ["sptensor.extract"], ["one_col", "extra_col", "missing_co
            "sptensor.extract never compares the number of subscript columns with the number of modes: a single column (any "
            "tensor) or any number of columns (1-way tensor) is broadcast against the shape and answered", "sptensor.extract",
            extra=lambda a: len(a["subs"][0]) == 1 or len(a["s"]) == 1)
+
+
+finding("C19-N21", "c19_n21_empty_innerprod_kt",
+        lambda op, a: op in ("sptensor.innerprod_ktensor", "sptensor.innerprod_ttensor") and a["empty"] and a["s"] != a["u"],
+        "sptensor.innerprod_ktensor", {"s": [2, 3], "u": [3, 2], "empty": True},
+        "sptensor.innerprod(other) with a Kruskal or Tucker operand: the shape tests in front of the 'all entries are zero' early return "
+        "(added for C19-N04) cover sparse and dense operands only, so a receiver that stores no entry answers 0 for a ktensor / ttensor of "
+        "ANY shape (a receiver with an entry hands the call to other.innerprod(self), which compares the shapes)", "sptensor.innerprod")
+
+
+finding("C19-N22", "c19_n22_sparse_contract_negative",
+        lambda op, a: op == "sptensor.contract" and (a["i1"] < 0 or a["i2"] < 0)
+        and all(-len(a["s"]) <= i < len(a["s"]) for i in (a["i1"], a["i2"])) and a["i1"] != a["i2"] and a["s"][a["i1"]] == a["s"][a["i2"]],
+        "sptensor.contract", {"s": [2, 3], "i1": -2, "i2": 0},
+        "sptensor.contract: no range test on the modes (tensor.contract has one since d384651): negative modes index self.shape and "
+        "self.subs with wrap-around, so contract(-2, 0) on a 2 x 3 tensor 'contracts' mode 0 with itself and contract(-1, 0) on a square "
+        "matrix is answered", "sptensor.contract")
+finding("C19-N23", "c19_n23_sparse_nvecs_mode",
+        lambda op, a: op == "sptensor.nvecs" and not in_range(len(a["s"]), a["n"]),
+        "sptensor.nvecs", {"s": [2, 3], "n": 2},
+        "sptensor.nvecs(n, r): the mode is only used in np.setdiff1d(np.arange(ndims), n), which ignores a mode that does not exist: an "
+        "out-of-range or negative n is answered with eigenvectors of the 1 x 1 Gram matrix of the fully vectorised tensor "
+        "(tensor.nvecs rejects the same request)", "sptensor.nvecs")
+
+
+finding("C19-N24", "c19_n24_empty_sparse_scale",
+        lambda op, a: op in ("sptensor.scale_dense", "sptensor.scale_sparse") and a["empty"] and modes_ok(len(a["s"]), a["d"])
+        and a["f"] != [a["s"][m] for m in sorted(a["d"])],
+        "sptensor.scale_dense", {"s": [2, 3], "f": [5], "d": [0], "empty": True},
+        "sptensor.scale(factor, dims): 'if self.nnz == 0: return self.copy()' comes before the comparison of factor.shape with "
+        "shape[dims], so a receiver that stores no entry answers for a factor of ANY shape (mode arguments are still checked)",
+        "sptensor.scale")
+
+
+def _upd_first_block_applied(a):
+    s, R, ms, N = a["s"], a["R"], a["modes"], len(a["s"])
+    if not ms or any(x > y for x, y in zip(ms, ms[1:])):
+        return False                                  # empty list / refused by the (non-strict) sortedness test: nothing is touched
+    k = ms[0]
+    if not (k == -1 or -N <= k < N):
+        return False                                  # the first block is refused
+    return a["dlen"] >= _upd_need(s, R, k)
+
+
+finding("C19-N25", "c19_n25_ktensor_update_in_place",
+        lambda op, a: op == "ktensor.update" and not _pre_k_update(a) and _upd_first_block_applied(a),
+        "ktensor.update", {"s": [2, 3], "R": 2, "modes": [0, 5], "dlen": 10},
+        "ktensor.update(modes, data) checks each mode and the data length inside the loop that assigns in place: a request that is "
+        "rejected at a later block ('Invalid mode: 5' for modes [0, 5], 'Data is too short' for the second block) has already "
+        "overwritten the earlier factors / weights (receiver changed by a rejected call); modes below -1 wrap around (update(-2, ...) "
+        "replaces factor ndims-2) and repeated modes pass the '<=' sortedness test and are answered", "ktensor.update",
+        observed="AssertionError 'Invalid mode: 5' after factor_matrices[0] has been overwritten with data[0:4] (receiver changed by a rejected call)",
+        expected="an exception and an unchanged receiver")
+
+
+finding("C19-N26", "c19_n26_dense_mask_order_one",
+        lambda op, a: op == "tensor.mask" and len(a["u"]) == 1 and len(a["s"]) >= 2 and a["u"][0] <= min(a["s"]),
+        "tensor.mask", {"s": [2, 3], "u": [2]},
+        "tensor.mask(W) compares np.array(W.shape) > np.array(self.shape) without comparing the orders (sptensor.mask and ktensor.mask "
+        "do): a 1-way mask is broadcast against every mode and then used as an index of the first mode only, so T(2 x 3).mask(W(2)) "
+        "returns rows of the data instead of raising 'Mask cannot be bigger than the data tensor'", "tensor.mask")
 
 
 if __name__ == "__main__":
